@@ -426,7 +426,7 @@ class Ctx:
             self.trace_selftest(module, cfg, tp, fam=fam, dfs=dfs)
         return r, s
 
-    def trace_selftest(self, module, cfg, tp, fam=None, dfs=False, mutate=None):
+    def trace_selftest(self, module, cfg, tp, fam=None, dfs=False, mutate=None, stage=None):
         """Anti-vacuity: corrupt one recorded reply and require TLC to reject."""
         lines = [json.loads(l) for l in open(tp) if l.strip()]
         idx = None
@@ -445,7 +445,7 @@ class Ctx:
         with open(bad, 'w') as f:
             for l in lines:
                 f.write(json.dumps(l) + '\n')
-        r = self.tlc_trace(module, cfg, bad, fam=fam, dfs=dfs)
+        r = self.tlc_trace(module, cfg, bad, fam=fam, dfs=dfs, stage=stage)
         if r['accepted']:
             raise Broken('binding self-test failed: corrupted trace (event %d) was accepted by %s' % (idx, module))
         self.extra['selftest_corrupted_trace_rejected'] = True
